@@ -139,8 +139,16 @@ impl Chunk {
         let mut size_buf = [0u8; 4];
         reader.read_exact(&mut size_buf)?;
         let size = u32::from_le_bytes(size_buf);
-        let mut data = vec![0u8; size as usize];
-        reader.read_exact(&mut data)?;
+        // The size comes straight from the file: read through a length-limited
+        // adapter instead of allocating it up front
+        let mut data = Vec::new();
+        reader.by_ref().take(size as u64).read_to_end(&mut data)?;
+        if data.len() != size as usize {
+            return Err(io::Error::new(
+                io::ErrorKind::UnexpectedEof,
+                "chunk data is shorter than its declared size",
+            ));
+        }
 
         Ok(Self { magic, size, data })
     }
